@@ -210,6 +210,12 @@ def receive(ck, agg, nn):
                     bad_addr = any(e.data[0] is False for e in vv)
                     if bad_addr:
                         agg.add("R05.3", f, "a frame with an invalid origin or destination is neither queued nor forwarded", not e_here and not f_here, "queued=%d forwarded=%d" % (len(e_here), len(f_here)))
+                    if len([e for e in vv if e.data[0] is True]) >= 2 and not bad_addr:
+                        # completeness: a frame whose header decoded and whose two addresses are valid reaches the dispatch decision (is it
+                        # for this node?) - nothing else may drop it first (a NETWORK_ACK, a reply or a relayed frame carries whatever
+                        # origin its sender put there, this node's own address included)
+                        agg.add("R05.6", f, "a well-formed frame (header decoded, both addresses valid) is never dropped before it is dispatched", to_self is not None or bool(e_here) or bool(f_here),
+                                "a received frame with a valid origin and destination is discarded without being compared with the node's address; tests on the path: %s" % sorted({ast.unparse(e.node)[:60] for e in tests}))
                     if e_here or f_here:
                         agg.add("R05.3", f, "both addresses are validated before a frame is queued or forwarded", len([e for e in vv if e.data[0] is True]) >= 2,
                                 "only %d address validations precede" % len(vv), (e_here + f_here)[0].node)
@@ -257,6 +263,10 @@ def run(ck):
     nn3 = net.NetNode(ck, "rf24_network", "RF24Network")
     nn3.merge_funcs = set()
     c04.begin_structure(ck, agg, nn3)
+    # ... and on the next-hop computation using exactly those fields (R04.5: descendants through the child on their branch, everything
+    # else to the parent) - a next hop computed from a field that public setters overwrite (multicast_level) lands in the wrong queue
+    c04.next_hop(ck, agg, nn3)
+    c04.child_window(ck, agg, nn3)
     agg.flush()
     ck.floor("R05.1", "single-frame transmissions", n1, 1)
     ck.floor("R05.2", "validation scenarios and public senders", n2, 8)
